@@ -22,7 +22,10 @@ CONSTANTS Layers,        \* set of layer names to enumerate
           Thorough,      \* BOOLEAN: larger bounds
           Mods,          \* record layer -> sampling modulus for the export (1 = every case)
           Seed,          \* sample selector
-          RandCases      \* sequence of [q, db] records (generated, see tools/props/c11.py)
+          RandCases,     \* sequence of [q, db] records (generated, see tools/props/c11.py)
+          CodeFlags      \* deviation rules the planner is believed to have (subset of AllFlags)
+
+ASSUME CodeFlags \subseteq AllFlags
 
 VARIABLE cs
 
@@ -199,7 +202,7 @@ Spec == Init /\ [][Next]_cs
 IsCase == cs.st = "case"
 IsCaseOrNot == cs.st \in {"root", "part", "case"}
 Def == Eval(cs.q, cs.db)
-Mech == PlanEval(cs.q, cs.db, AllFlags)
+Mech == PlanEval(cs.q, cs.db, CodeFlags)
 Ideal == PlanEval(cs.q, cs.db, {})
 
 \* the design of the plan (bit per term, groupBitOr, HAVING tree, INTERSECT / UNION ALL, limits) is right
@@ -235,6 +238,6 @@ CheckCase ==
                  cand == ~ConformsAll(m, d, cs.q, cs.db)
              IN PrintT(<<"C11CASE", ToJson([layer |-> cs.layer, h |-> cs.h, i |-> cs.i, q |-> TrimQ(cs.q), db |-> cs.db,
                                              def |-> d, mech |-> m, cand |-> cand,
-                                             explain |-> IF cand THEN ExplainWith(cs.q, cs.db, d) ELSE {}])>>)
+                                             explain |-> IF cand THEN ExplainWith(cs.q, cs.db, d, CodeFlags) ELSE {}])>>)
         ELSE TRUE
 =============================================================================
